@@ -602,10 +602,19 @@ func main() {
 	only := flag.Int("only", -1, "")
 	exh := flag.Int("exh", -1, "exhaustive small-scope exploration: log this many per mille of the transitions (0 = all)")
 	exhmax := flag.Int("exhmax", 0, "expand at most this many states per configuration (0 = all)")
+	exhPath := flag.String("exhpath", "", "replay one transition of the exhaustive exploration: event path")
+	exhEv := flag.String("exhev", "", "... and the event")
+	exhNosec := flag.Bool("exhnosec", true, "... under this security setting")
 	flag.Parse()
 	tr, err := sim.NewTrace(*out)
 	if err != nil {
 		panic(err)
+	}
+	if *exhEv != "" {
+		exhReplay(tr, *seed, *exhNosec, *exhPath, *exhEv)
+		tr.Close()
+		fmt.Printf("{\"histories\":1,\"events\":%d,\"states\":1,\"transitions\":1}\n", tr.Len())
+		return
 	}
 	if *exh >= 0 {
 		st, trn := 0, 0
